@@ -66,7 +66,8 @@ Eval(e, env, st) ==
                       IN  IF ~x.ok \/ ~y.ok THEN Bad
                           ELSE IF TooBig(x.v) \/ TooBig(y.v) THEN Bad
                           ELSE IF e.op = "/" /\ RIsZero(y.v) THEN Bad
-                          ELSE Good(RBin(e.op, x.v, y.v))
+                          ELSE LET r == RBin(e.op, x.v, y.v)
+                               IN  IF TooBig(r) THEN Bad ELSE Good(r)   \* a result the harness could not render exactly
     \* n-ary and unary arithmetic (outside the library's fragment; this is its
     \* standard meaning): (+ a b c) = a+b+c, (- a) = -a, (- a b c) = a-b-c
     [] e.k = "nary" -> IF Len(e.es) = 0 THEN Bad
@@ -165,11 +166,12 @@ NewVal(x, rd, old) ==
       ELSE IF x[1].op = "assign" THEN rhs
       ELSE IF t \notin DOMAIN old.fl THEN Bad
       ELSE IF TooBig(old.fl[t]) \/ TooBig(rhs.v) THEN Bad
-      ELSE IF x[1].op = "increase" THEN Good(RAdd(old.fl[t], rhs.v))
-      ELSE IF x[1].op = "decrease" THEN Good(RSub(old.fl[t], rhs.v))
-      ELSE IF x[1].op = "scale-up" THEN Good(RMul(old.fl[t], rhs.v))
-      ELSE IF x[1].op = "scale-down" /\ ~RIsZero(rhs.v) THEN Good(RDiv(old.fl[t], rhs.v))
-      ELSE Bad
+      ELSE LET r == IF x[1].op = "increase" THEN RAdd(old.fl[t], rhs.v)
+                    ELSE IF x[1].op = "decrease" THEN RSub(old.fl[t], rhs.v)
+                    ELSE IF x[1].op = "scale-up" THEN RMul(old.fl[t], rhs.v)
+                    ELSE IF x[1].op = "scale-down" /\ ~RIsZero(rhs.v) THEN RDiv(old.fl[t], rhs.v)
+                    ELSE <<0, 0>>
+           IN  IF TooBig(r) THEN Bad ELSE Good(r)
 
 (* Consistency of the simultaneously firing effects (the quantifier of C03):
    no fluent written twice, no atom added by one group and deleted by
